@@ -99,12 +99,16 @@ def run_tree(rec, tier, seed, ti, spec, t, log, lf):
                 rec.count("constructor-raised")
                 continue
 
+            last = {}
+
             def ser(fail_at=None, target_obj=real):
                 w = t.EoWriter()
                 w.string_sanitization_mode = mode
                 tw = TraceWriter(w, None, fail_at=fail_at)
+                last["tw"], last["ok"] = tw, False
                 try:
                     C.serialize(tw, target_obj)
+                    last["ok"] = True
                 except (InjectedFault, ValueError, t.SerializationError):
                     pass
                 except Exception as e:
@@ -112,6 +116,23 @@ def run_tree(rec, tier, seed, ti, spec, t, log, lf):
                 return tw.calls, bytes(w.to_bytearray())
 
             n_ops, data = lf.run(lambda: ser())
+            if last["ok"]:
+                # the mode in force at every write must be the one the XML prescribes there
+                mw = RefWriter()
+                mw.sanitize = mode
+                mw.modes = []
+                try:
+                    it.serialize(obj, mw)
+                    want_modes = mw.modes
+                except (Invalid, Unsupported):
+                    want_modes = None
+                got_modes = last["tw"].modes
+                if want_modes is not None and [m[0] for m in want_modes] == [m[0] for m in got_modes]:
+                    rec.count("writer-mode-traces-compared")
+                    bad = next((i for i, (a, b) in enumerate(zip(want_modes, got_modes)) if a[1] != b[1]), None)
+                    if bad is not None:
+                        rec.violation("writer-mode-inside-call-differs", "tree %d %s: at write #%d (%s) the writer's sanitisation mode is %r, the XML prescribes %r (entry mode %r)" % (
+                            ti, name, bad, got_modes[bad][0], got_modes[bad][1], want_modes[bad][1], mode), dict(case, xml=t.files, op_index=bad))
             n_lines = lf.count
             rec.case((ti, name, repr(obj), mode, "ser-clean"), nontrivial=log.max_depth > 1)
             flush_leaks(rec, log, t, ti, name, "clean serialize", case)
@@ -155,14 +176,18 @@ def run_tree(rec, tier, seed, ti, spec, t, log, lf):
                 variants.append(data[: rng.randrange(len(data))])
             for dv, d in enumerate(variants):
 
+                dlast = {}
+
                 def de(fail_at=None, d=d):
                     r = t.EoReader(d)
                     r.chunked_reading_mode = mode
                     m = RefReader(d)
                     m.chunked = mode
                     ls = LockstepReader(r, m, fuel=50 * len(d) + 3000, fail_at=fail_at)
+                    dlast["ls"], dlast["ok"] = ls, False
                     try:
                         C.deserialize(ls)
+                        dlast["ok"] = True
                     except (InjectedFault, ValueError, FuelExhausted):
                         pass
                     except Divergence:
@@ -174,6 +199,22 @@ def run_tree(rec, tier, seed, ti, spec, t, log, lf):
                 dcase = {"tree": ti, "class": name, "bytes": d, "entry_mode": mode}
                 n_ops = lf.run(lambda: de())
                 n_lines = lf.count
+                if dlast["ok"]:
+                    mr = RefReader(d)
+                    mr.chunked = mode
+                    mr.modes = []
+                    try:
+                        it.deserialize((name,), mr, [5000])
+                        want_modes = mr.modes
+                    except Exception:
+                        want_modes = None
+                    got_modes = dlast["ls"].modes
+                    if want_modes is not None and len(want_modes) == len(got_modes):
+                        rec.count("reader-mode-traces-compared")
+                        bad = next((i for i, (a, b) in enumerate(zip(want_modes, got_modes)) if a != b), None)
+                        if bad is not None:
+                            rec.violation("reader-mode-inside-call-differs", "tree %d %s: at read #%d the reader's chunked mode is %r, the XML prescribes %r (entry mode %r, bytes %s)" % (
+                                ti, name, bad, got_modes[bad], want_modes[bad], mode, d.hex()), dict(dcase, xml=t.files, op_index=bad))
                 rec.case((ti, name, d, mode, "de-clean"), nontrivial=log.max_depth > 1)
                 flush_leaks(rec, log, t, ti, name, "clean deserialize", dcase)
                 for k in indices(n_ops, CAP[tier] if dv == 0 else 8, rng):
